@@ -2,10 +2,12 @@
 import importlib, json, os, sys
 from .core import HEADER, write_if_changed, Unrecognised
 
-MODULES = ["consts", "brine"]
-PRELUDE = {
-    "brine": "From V Require Import model.Ladder.\n",
-}
+def _discover():
+    here = os.path.dirname(os.path.abspath(__file__))
+    return sorted(f[:-3] for f in os.listdir(here) if f.endswith(".py") and f not in ("__init__.py", "core.py"))
+
+
+MODULES = _discover()
 
 
 def generate(repo, verif, only=None):
@@ -22,7 +24,7 @@ def generate(repo, verif, only=None):
         except (Unrecognised, SyntaxError, OSError, KeyError, IndexError, AttributeError) as e:
             items = []
             rep["failed"]["<module>"] = "%s: %s" % (type(e).__name__, e)
-        lines = [HEADER % mod.SRC, PRELUDE.get(m, "")]
+        lines = [HEADER % mod.SRC, getattr(mod, "PRELUDE", "")]
         for it in items:
             if it.kind == "typed":
                 lines.append("Definition %s : %s := %s." % (it.name, it.coq_type, it.coq_term))
